@@ -11,6 +11,10 @@ MIXED = 'mixed'
 NONE = None
 
 
+class FnRef(str):
+    """tag of a variable that holds a function (`scale = numpy.log`): the dotted name of that function"""
+
+
 class TagState(dict):
     def __hash__(self):
         return hash(frozenset(self.items()))
@@ -20,8 +24,9 @@ class TagAnalysis(Analysis):
     for_body_runs_at_least_once = True
 
     def __init__(self, fn, seeds=None, world=None, call_rule=None, default=None, attr_rule=None,
-                 observe=None, elementwise=True, subscript_rule=None, binop_rule=None):
+                 observe=None, elementwise=True, subscript_rule=None, binop_rule=None, fnref_rule=None):
         self.fn = fn
+        self.fnref_rule = fnref_rule     # fnref_rule(expr, state) -> dotted name when the expression denotes a function, else None
         self.seeds = dict(seeds or {})
         self.world = dict(world or {})
         self.call_rule = call_rule
@@ -73,6 +78,10 @@ class TagAnalysis(Analysis):
             args = [self.ev(a.value if isinstance(a, ast.Starred) else a, s) for a in e.args]
             kws = {k.arg: self.ev(k.value, s) for k in e.keywords}
             self.calls.append((e, args, kws, self.copy(s)))
+            if isinstance(e.func, ast.Name) and isinstance(s.get(e.func.id, self.seeds.get(e.func.id)), FnRef):
+                # a call through a variable that holds a function is a call of that function
+                e = ast.copy_location(ast.Call(func=ast.parse(str(s.get(e.func.id, self.seeds.get(e.func.id))), mode='eval').body, args=e.args, keywords=e.keywords), e)
+                ast.fix_missing_locations(e)
             if self.call_rule:
                 r = self.call_rule(self, e, args, kws, s)
                 if r is not NotImplemented:
@@ -175,6 +184,10 @@ class TagAnalysis(Analysis):
                     s = self.assign(tt, vv, s, st)
                 return s
             t = self.ev(value, s)
+            if self.fnref_rule is not None and isinstance(value, (ast.Name, ast.Attribute)) and not isinstance(t, FnRef):
+                d = self.fnref_rule(value, s)
+                if d:
+                    t = FnRef(d)
         self._bind(target, t, s)
         return s
 
